@@ -89,6 +89,8 @@ pub mod test_utils;
 pub mod timestamp;
 pub mod topic;
 pub mod traits;
+#[cfg(p2panda_p2panda_verif)]
+pub mod verif;
 
 pub use cursor::Cursor;
 pub use extensions::{Extension, Extensions};
